@@ -85,11 +85,19 @@ func phiEdgeConst(phi *ssa.Phi, e ssa.Value) (bool, bool) {
 	if isNilConst(e) {
 		return false, true
 	}
-	if isErrorType(e.Type()) && provablyNonNilError(e) {
-		return true, true
+	if isErrorType(e.Type()) && !inPhiEdgeConst {
+		// (errNonNilBy itself looks at condition edges, which look at phi edges: no re-entry)
+		inPhiEdgeConst = true
+		nn := provablyNonNilError(e)
+		inPhiEdgeConst = false
+		if nn {
+			return true, true
+		}
 	}
 	return false, false
 }
+
+var inPhiEdgeConst bool
 
 func predIndex(b, from *ssa.BasicBlock) int {
 	idx := -1
